@@ -76,7 +76,8 @@ TPunch == /\ IsEvent("punch") /\ Stamp("punch") /\ Keep
           /\ Seen
 \* how far a keep-size preallocation reaches: to B on files that can hold uninitialized extents, else to the end of the
 \* block holding EOF (eofc[f][s] = the last cut point not beyond the end of the block that holds cut s)
-FallocLim == IF Grows(Tr[l].mode) \/ uok[F + 1] = 1 THEN B
+FallocLim == IF Tr[l].inl[F + 1] = 1 THEN A          \* inline data: nothing to preallocate, the request is a no-op or refused
+             ELSE IF Grows(Tr[l].mode) \/ uok[F + 1] = 1 THEN B
              ELSE LET e == eofc[F + 1][size[F] + 1] IN IF e < A THEN A ELSE IF e < B THEN e ELSE B
 TFalloc == /\ IsEvent("falloc") /\ Stamp("falloc") /\ Keep
            /\ \/ /\ Ok /\ A < B
